@@ -186,7 +186,7 @@ func (r *vsRig) drainRequest(w *vsWorker) *buildqueuestate.AddOrRemoveDrainReque
 			PlatformQueueName: &buildqueuestate.PlatformQueueName{InstanceNamePrefix: w.prefix, Platform: w.platform},
 			SizeClass:         w.sizeClass,
 		},
-		WorkerIdPattern:    w.id,
+		WorkerIdPattern:    map[string]string{"host": w.id["host"]}, // names only one of the worker's two ID keys
 	}
 }
 
@@ -242,7 +242,7 @@ func (r *vsRig) perform(o *vsOpts, a vsAct) {
 		}
 		o.terminations = append(o.terminations, tm)
 		rt.Go(func() {
-			_, err := r.bq.TerminateWorkers(tm.ctx, &buildqueuestate.TerminateWorkersRequest{WorkerIdPattern: w.id})
+			_, err := r.bq.TerminateWorkers(tm.ctx, &buildqueuestate.TerminateWorkersRequest{WorkerIdPattern: map[string]string{"host": w.id["host"]}})
 			rt.Sync()
 			tm.returned, tm.err = true, err
 			for _, t := range tm.holders {
